@@ -134,7 +134,7 @@ RULE_STATIC = (
     'N*(1+14+14^2+14^3+14^4) calls (arity 4 in 14 shards of 14^3), + 3000 x scale more arity-4 tuples per modelled name for the model; arguments outside the pool are '
     'not part of this stream; a callFunction listener counts the dispatches of the name: a fn shard without violation whose '
     'number of dispatches differs from its number of calls is a '
-    'harness error; fn-edge (a strings case per name) = every name on numeric edges written as literals: 29 numbers (incl. 2^53+1 and its negative, and the float twins 10^15/1, -(10^15/1), 2^70/1, 10^300/1 of huge whole numbers; +-0.5, '
+    'harness error; fn-edge (a strings case per name) = every name that accepts three arguments also on its guard axes - one argument 10^15, the two others over 12 small whole numbers of either sign and fractions, all 3 x 144 combinations - and every name on numeric edges written as literals: 29 numbers (incl. 2^53+1 and its negative, and the float twins 10^15/1, -(10^15/1), 2^70/1, 10^300/1 of huge whole numbers; +-0.5, '
     '+-10^-9, 0, -0, +-1, +-1.5, 2, 36, 37, +-255, +-10^15, +-10^300, 2^53, +-(2^53+1), 0.1, 0.25, -2.5) alone and in all 29^2 pairs, 7 numeric '
     'texts at the edges of float() ("1e400", "nan", "inf", "1e-400", REPT("9",400), ...) alone and paired both ways with 6 '
     'small numbers, 40 (600) x scale seeded triples (at most all 13^3) over 13 of the numbers (the first 12 and 10^15): 1001 '
@@ -1658,6 +1658,14 @@ def cases(rng, ctx):
         items += ['%s(%s,%s)' % (name, a, b) for a in texts for b in few] + ['%s(%s,%s)' % (name, b, a) for a in texts for b in few]
         tri = [(a, b, c) for a in edges[:12] + ['10^15'] for b in edges[:12] + ['10^15'] for c in edges[:12] + ['10^15']]
         items += ['%s(%s,%s,%s)' % ((name,) + t) for t in rng.sample(tri, min(len(tri), (40 if not thorough else 600) * scale))]
+        if _accepts(name, 3):
+            # the GUARD AXES of three-argument functions, systematically: one argument huge (10^15), the two others over small
+            # whole numbers of either sign, fractions and the radix / table bounds - a size guard that looks at one sign only, or at
+            # one argument only, is met here whatever the sample above drew (tenth round: PV(-3,10^15,100))
+            axis = ['-255', '-37', '-3', '-2', '-1', '0', '1', '2', '3', '36', '0.5', '-1.5']
+            for x in axis:
+                for y in axis:
+                    items += ['%s(10^15,%s,%s)' % (name, x, y), '%s(%s,10^15,%s)' % (name, x, y), '%s(%s,%s,10^15)' % (name, x, y)]
         out.append({'kind': 'strings', 'stream': 'fn-edge', 'items': items})
 
     # ---- (c''') a parser constructed with debug=True: aggregates handed an error value (which they re-raise), raising and failing
@@ -1720,6 +1728,24 @@ def cases(rng, ctx):
     _pending[:] = out
     _results.clear()
     return out
+
+
+def _accepts(name, n):
+    """can the registered function be called with n positional arguments?"""
+    import inspect
+    common.load_repo()
+    from hotxlfp import formulas
+    try:
+        sig = inspect.signature(formulas.get_for(name))
+    except (TypeError, ValueError):
+        return True
+    pos = 0
+    for prm in sig.parameters.values():
+        if prm.kind == prm.VAR_POSITIONAL:
+            return True
+        if prm.kind in (prm.POSITIONAL_ONLY, prm.POSITIONAL_OR_KEYWORD):
+            pos += 1
+    return pos >= n
 
 
 _modelled_cache = [None]
